@@ -1965,15 +1965,25 @@ namespace xsimd
                 using int_batch = typename bitwise_cast_batch<T, A>::type;
                 using int_type = typename int_batch::value_type;
 
+                // the representable value following b towards +infinity: the bit pattern grows for
+                // positive values and shrinks for negative ones; +-0 is followed by the smallest subnormal
                 static XSIMD_INLINE batch_type next(const batch_type& b) noexcept
                 {
-                    batch_type n = ::xsimd::bitwise_cast<T>(::xsimd::bitwise_cast<int_type>(b) + int_type(1));
+                    int_batch ib = ::xsimd::bitwise_cast<int_type>(b);
+                    batch_type up = ::xsimd::bitwise_cast<T>(ib + int_type(1));
+                    batch_type down = ::xsimd::bitwise_cast<T>(ib - int_type(1));
+                    batch_type tiny = ::xsimd::bitwise_cast<T>(int_batch(int_type(1)));
+                    batch_type n = select(b > batch_type(T(0)), up, select(b < batch_type(T(0)), down, tiny));
                     return select(b == constants::infinity<batch_type>(), b, n);
                 }
 
                 static XSIMD_INLINE batch_type prev(const batch_type& b) noexcept
                 {
-                    batch_type p = ::xsimd::bitwise_cast<T>(::xsimd::bitwise_cast<int_type>(b) - int_type(1));
+                    int_batch ib = ::xsimd::bitwise_cast<int_type>(b);
+                    batch_type up = ::xsimd::bitwise_cast<T>(ib + int_type(1));
+                    batch_type down = ::xsimd::bitwise_cast<T>(ib - int_type(1));
+                    batch_type tiny = ::xsimd::bitwise_cast<T>(int_batch(int_type(1)));
+                    batch_type p = select(b > batch_type(T(0)), down, select(b < batch_type(T(0)), up, -tiny));
                     return select(b == constants::minusinfinity<batch_type>(), b, p);
                 }
             };
@@ -1982,8 +1992,9 @@ namespace xsimd
         XSIMD_INLINE batch<T, A> nextafter(batch<T, A> const& from, batch<T, A> const& to, requires_arch<generic>) noexcept
         {
             using kernel = detail::nextafter_kernel<T, A>;
-            return select(from == to, from,
-                          select(to > from, kernel::next(from), kernel::prev(from)));
+            return select(isnan(from) || isnan(to), from + to,
+                          select(from == to, to,
+                                 select(to > from, kernel::next(from), kernel::prev(from))));
         }
 
         // pow
